@@ -14,11 +14,32 @@ from .den import ArrayModel, Den, Reduction, as_int
 from .sym import EngineFault, OutsideSubset, SymInt, z_of
 
 
+def dim(h, name):
+    """An axis length: a symbolic non-negative integer, or -- in a harness
+    switched to ``dim_mode == "param"`` (C16) -- a real affine expression in
+    fresh size parameters (forms rotate: p, 2*p + 1, p + q)."""
+    if getattr(h, "dim_mode", None) != "param":
+        return h.nonneg(name)
+    made = h.__dict__.setdefault("_param_dims", [])
+    pname = "p_" + "".join(c if c.isalnum() else "_" for c in name)
+    p = pt.make_size_param(pname)
+    h.assume(z3.Int(f"sp_{pname}") >= 0)
+    form = len(made) % 3
+    if form == 0 or not made:
+        d = p
+    elif form == 1:
+        d = 2 * p + 1
+    else:
+        d = p + made[0][0]
+    made.append((p, d))
+    return d
+
+
 def mk_placeholder(h, name, rank=None, *, shape=None, dtype=np.float64,
                    tags=frozenset()):
     """A real Placeholder with symbolic non-negative axis lengths."""
     if shape is None:
-        shape = tuple(h.nonneg(f"{name}_n{d}") for d in range(rank))
+        shape = tuple(dim(h, f"{name}_n{d}") for d in range(rank))
     return Placeholder(name=name, shape=tuple(shape), dtype=np.dtype(dtype),
                        axes=_get_default_axes(len(shape)), tags=tags)
 
